@@ -74,6 +74,8 @@ type symCtx struct {
 	seen         map[string]types.Type // input paths read (discovery)
 	allocN       int
 	copyHook     func(c *symCtx, dst, src sv, n int64) (handled, ok bool) // the builtin copy, before its default model
+	writeHook    func(c *symCtx, data sv) bool                            // Write on the recording writer
+	writeFails   bool                                                     // … which then accepts one byte and fails
 	opaqueNonNil map[string]bool                                          // callees treated as "returns some non-nil pointer"
 	// hook intercepts a call before it is evaluated (static, closure or
 	// dynamically dispatched).  handled=false lets evaluation proceed.
@@ -964,6 +966,21 @@ func (c *symCtx) call(x *ssa.Call, get func(ssa.Value) (sv, bool), depth int) (s
 		recv, ok := get(cc.Value)
 		if !ok {
 			return sv{}, false
+		}
+		// the recording writer of the WriteTo evaluation (c10.go writeToByEvaluation)
+		if c.writeHook != nil && recv.k == 'I' && recv.dt == nil && recv.addr == "WRITER" && cc.Method.Name() == "Write" && len(cc.Args) == 1 {
+			data, ok := get(cc.Args[0])
+			if !ok {
+				return sv{}, false
+			}
+			if !c.writeHook(c, data) {
+				return sv{}, false
+			}
+			if c.writeFails {
+				// a writer that takes one byte and reports an error: WriteTo must hand both back
+				return sv{k: 't', tup: []sv{{k: 'i', i: 1}, {k: 'I', addr: "WERR"}}}, true
+			}
+			return sv{k: 't', tup: []sv{{k: 'i', i: data.i}, {k: 'z'}}}, true
 		}
 		if recv.k != 'I' || recv.dt == nil {
 			return sv{}, c.fail("method %s called on %v at %s", cc.Method.Name(), recv, c.p.Pos(x.Pos()))
